@@ -1159,6 +1159,43 @@ func predTime(B []*big.Int) {
 	}
 }
 
+// ---------------------------------------------------------------------------------------------- exported time conversions
+
+func runTime(B []*big.Int) int {
+	n := 0
+	nanos := []int64{0, 1, 999999, 1000000, 500000000, 999000000, 999999999}
+	for _, v := range B {
+		if !v.IsInt64() {
+			continue
+		}
+		x := v.Int64()
+		for _, ns := range nanos {
+			t := time.Unix(x, ns)
+			if t.Unix() != x || int64(t.Nanosecond()) != ns {
+				continue
+			}
+			m, err := datacodec.ConvertTimeToEpochMillis(t)
+			hlib.Emit(M{"k": "tm", "name": "ConvertTimeToEpochMillis", "s": v.String(), "n": ns, "ok": err == nil, "v": strconv.FormatInt(m, 10)})
+			d, err := datacodec.ConvertTimeToEpochDays(t)
+			hlib.Emit(M{"k": "tm", "name": "ConvertTimeToEpochDays", "s": v.String(), "n": ns, "ok": err == nil, "v": strconv.FormatInt(int64(d), 10)})
+			n += 2
+		}
+		t := datacodec.ConvertEpochMillisToTime(x)
+		hlib.Emit(M{"k": "tm", "name": "ConvertEpochMillisToTime", "x": v.String(), "s": strconv.FormatInt(t.Unix(), 10), "n": t.Nanosecond()})
+		du, err := datacodec.ConvertDurationToNanosOfDay(time.Duration(x))
+		hlib.Emit(M{"k": "tm", "name": "ConvertDurationToNanosOfDay", "x": v.String(), "ok": err == nil, "v": strconv.FormatInt(du, 10)})
+		dd, err := datacodec.ConvertNanosOfDayToDuration(x)
+		hlib.Emit(M{"k": "tm", "name": "ConvertNanosOfDayToDuration", "x": v.String(), "ok": err == nil, "v": strconv.FormatInt(int64(dd), 10)})
+		n += 3
+		if inRange(v, numRange{true, 32}) {
+			td := datacodec.ConvertEpochDaysToTime(int32(x))
+			hlib.Emit(M{"k": "tm", "name": "ConvertEpochDaysToTime", "x": v.String(), "s": strconv.FormatInt(td.Unix(), 10), "n": td.Nanosecond()})
+			n++
+		}
+	}
+	return n
+}
+
 func main() {
 	if len(os.Args) < 2 {
 		fmt.Fprintln(os.Stderr, "usage: num <numeric_table.json> [thorough]")
@@ -1190,6 +1227,7 @@ func main() {
 	counts["to"] = runToSwitches(&tab, srcs)
 	counts["from"] = runFromSwitches(&tab, B)
 	counts["wire"] = runWire(B)
+	counts["time"] = runTime(B)
 	predEncode(srcs)
 	predDecode(B)
 	predFloats()
